@@ -66,10 +66,11 @@ def directed_cases(seed: int, tier: str) -> typing.List[dict]:
                 "permuted": [dict(base, order_seed=11), dict(base, order_seed=12)],
                 "abort-then-whole": [dict(base, abort_at=2), dict(base)],
                 "reuse": [dict(base), dict(base, reuse=True)],
+                "reuse-other-omit": [dict(base, omit_ser=True), dict(base, reuse=True, omit_ser=False), dict(base, reuse=True, omit_ser=True)],
                 "other-lang-first": [dict(base, lang=LANGS[(li + 1) % 3], templates=None, pp={}), dict(base, subset_pick=1)],
             }
             for name, script in sorted(scripts.items()):
-                if tier == "quick" and tpl is None and name in ("reuse", "other-lang-first") and lang == "cpp":
+                if tier == "quick" and tpl is None and name in ("other-lang-first",) and lang == "cpp":
                     continue
                 out.append({"label": "directed-%s-%s-%s" % (name, lang, tpl), "dsdl_seed": [seed, PROP, "directed", li], "script": script})
     return out
@@ -170,7 +171,7 @@ def api_generate(cx: Ctx, op: dict, out_dir: str) -> typing.Dict[str, str]:
 
     root_dir = os.path.join(cx.world.in_dir, op["root"])
     lookups = [os.path.join(cx.world.in_dir, x) for x in op.get("lookups", [])]
-    gkey = repr(sorted((k, str(v)) for k, v in op.items() if k not in ("reuse", "abort_at", "order_seed")))
+    gkey = repr(sorted((k, str(v)) for k, v in op.items() if k not in ("reuse", "abort_at", "order_seed", "omit_ser")))
     if op.get("reuse") and gkey in cx.generators:
         ns, gen, sgen = cx.generators[gkey]
     else:
@@ -362,8 +363,15 @@ def run_case(case: dict, ctx: dict) -> dict:
                     t["order_seed"] = ro.below(1 << 20) + 1
                 if ro.chance(1, 5):
                     t["entry"] = "cli"
-                if ro.chance(1, 6) and i > 0:
+                if ro.chance(1, 3) and i > 0:
+                    # generate_all() again on the generator object of the previous invocation, possibly with another
+                    # omit_serialization_support argument (a per-call parameter of the same object)
+                    prev_t = templates[-1]
+                    t = {k: v for k, v in prev_t.items() if k not in ("abort_at", "reuse")}
                     t["reuse"] = True
+                    t["entry"] = "api"
+                    if ro.chance(1, 2):
+                        t["omit_ser"] = not prev_t.get("omit_ser", False)
                 if ro.chance(1, 6):
                     t["abort_at"] = ro.between(1, 12)
                 if ro.chance(1, 8):
@@ -378,6 +386,13 @@ def run_case(case: dict, ctx: dict) -> dict:
                 op["templates"] = None
             if op.get("templates") is None and op["lang"] in ("c", "cpp"):
                 op.pop("ns_types", None)
+            if op.get("reuse") and ops:
+                for k in ("root", "lookups", "subset"):
+                    if k in ops[-1]:
+                        op[k] = ops[-1][k]
+                    else:
+                        op.pop(k, None)
+                op.pop("subset_pick", None)
             if "subset_pick" in op:
                 all_keys = sorted(type_key(x) for x in types_by_root[op["root"]])
                 pick = op.pop("subset_pick")
@@ -448,8 +463,8 @@ def run_case(case: dict, ctx: dict) -> dict:
             continue
         out_dir = os.path.join(sandbox, "out", "%d" % i)
         if op.get("reuse"):
-            gkey = repr(sorted((k, str(v)) for k, v in op.items() if k not in ("reuse", "abort_at", "order_seed")))
-            prev = [j for j in range(i) if repr(sorted((k, str(v)) for k, v in ops[j].items() if k not in ("reuse", "abort_at", "order_seed"))) == gkey and ops[j].get("entry", "api") == "api"]
+            gkey = repr(sorted((k, str(v)) for k, v in op.items() if k not in ("reuse", "abort_at", "order_seed", "omit_ser")))
+            prev = [j for j in range(i) if repr(sorted((k, str(v)) for k, v in ops[j].items() if k not in ("reuse", "abort_at", "order_seed", "omit_ser"))) == gkey and ops[j].get("entry", "api") == "api"]
             if prev and op.get("entry", "api") == "api":
                 out_dir = os.path.join(sandbox, "out", "%d" % prev[-1])
                 bump("probes", "generator_object_reused")
